@@ -17,6 +17,10 @@ _h4 = _copy.deepcopy(HARNESSES[0])
 _h4.update({'name': 'h_toy4', 'tiers': ['thorough'], 'covers': [1, 2, 3, 4, 5, 7, 9, 20],
             'rungs': {'thorough': [{'defines': ['NED=4', 'NEND=0', 'NOSTEP3'], 'bound': 'ED tree: every shape on 4 blocks (forks below a failing block), optional AddBlock per block with symbolic SP parent, no endorsements, one failing command at any block/group/position; history setState, {setState|comparePopScore}, return to the first target (no re-activation probe)', 'timeout': 1500}]}})
 HARNESSES.append(_h4)
+_h5 = _copy.deepcopy(HARNESSES[0])
+_h5.update({'name': 'h_toyfork', 'tiers': ['thorough'], 'covers': [1, 2, 3, 4, 5, 7, 9, 20, 30],
+            'rungs': {'thorough': [{'defines': ['NED=4', 'NEND=1', 'NOSTEP3', 'FIXSHAPE', 'PREACT=3'], 'bound': 'fixed ED tree: chain A = 1-2, chain B = 1-3-4, block 3 activated once before everything else (so B has a part validated on its own that is as tall as A); optional AddBlock per block with symbolic SP parent, 1 endorsement with symbolic containing/endorsed/block-of-proof, one failing command at any block/group/position; history setState, {setState|comparePopScore}, return to the first target', 'timeout': 1500}]}})
+HARNESSES.append(_h5)
 import importlib.util as _ilu
 _rp = _ilu.spec_from_file_location('realspec', os.path.join(os.path.dirname(os.path.abspath(__file__)), '..', 'real', 'spec.py'))
 _real = _ilu.module_from_spec(_rp); _rp.loader.exec_module(_real)
